@@ -10,8 +10,10 @@
 
     The model describes /repo's working tree after the repairs 0620db8
     (checkIPv4: an octet must start with a digit, so [std.Atoi10] never sees
-    a sign) and 131c44b (checkIPv6: a group is parsed as
-    [std.Atoi("0"+f, 16)], hence non-negative). *)
+    a sign), 131c44b (checkIPv6: a group is parsed as
+    [std.Atoi("0"+f, 16)], hence non-negative) and 7bd3a2c (checkIPv6: nine
+    fragments are let through when the first two or the last two are empty,
+    i.e. seven groups and a "::" for a single zero group). *)
 From Verif Require Import Base.Prelude.
 Local Open Scope Z_scope.
 
@@ -266,14 +268,29 @@ Fixpoint ipv6_loop (fragments : list bytes) (l : Z) (rest : list bytes)
             ipv6_loop fragments l rest' (i + 1) hasEmpty nums'
   end.
 
+(** [l == 9 && (len(fragments[0]) != 0 || len(fragments[1]) != 0) &&
+    (len(fragments[7]) != 0 || len(fragments[8]) != 0)]: with nine fragments
+    the four index operations cannot fault, so evaluating all of them (Go
+    short-circuits) is the same.  [Halt true] = the nine fragments may go on. *)
+Definition nine_ok (fragments : list bytes) : outcome bool :=
+  f0 <-! index fragments 0;
+  f1 <-! index fragments 1;
+  f7 <-! index fragments 7;
+  f8 <-! index fragments 8;
+  Halt (negb ((negb (len f0 =? 0) || negb (len f1 =? 0)) &&
+              (negb (len f7 =? 0) || negb (len f8 =? 0)))).
+
 Definition checkIPv6 (data : bytes) : outcome bool :=
   let l := len data in
   if (l <? 2) || (39 <? l) then Halt false
   else
     fragments <-! std_string_split data 58;
     let l := len fragments in
-    if (l <? 3) || (8 <? l) then Halt false
+    if (l <? 3) || (9 <? l) then Halt false
     else
+      ok9 <-! (if l =? 9 then nine_ok fragments else Halt true);
+      if negb ok9 then Halt false
+      else
       r <-! ipv6_loop fragments l fragments 0 false (repeat 0 8);
       match r with
       | None => Halt false
